@@ -121,3 +121,11 @@ Example C02_must_revalidate_stale_is_revalidated :
   decide_hit q e (946684810 * second) = DRevalidate true /\
   needs_validation (view_of e) q (946684810 * second) = true.
 Proof. split; vm_compute; reflexivity. Qed.
+
+(* ---------- tie to the source: the part of the model this property rests on is what /verif/translate derives from
+   /repo's Go source on this run (Generated/*.v are rewritten before every build; see DESIGN.md section 9) ---------- *)
+From HC.Generated Require Import SrcHit.
+From HC.Proofs Require Import TieHit.
+Theorem C02_source_decision : forall q e now, src_decide_hit q e now = decide_hit q e now.
+Proof. exact tie_decide_hit. Qed.
+Print Assumptions C02_source_decision.
